@@ -195,6 +195,18 @@ Lemma inline_agg_arg_dropped_refuted :
     sel_batch [inline_field_asis ASum false false (ShAff OAdd 1)] cells = [Some (RNum 2)] /\
     spec_batch ASum MExpr (map (eval_arg (ShAff OAdd 1)) cells) = Some (RNum 5).
 Proof. exists [Cell (VInt 0); Cell (VInt (-2)); Cell (VInt 4)]. split; vm_compute; reflexivity. Qed.
+(* the repaired code: the hidden field computes the definition of the aggregate over ITS argument, evaluated per row *)
+Lemma inline_agg_correct : forall f sh cells,
+  f <> AStdDev ->
+  match f with WStdDev | WStdDevS | WVar | WVarS => False | _ => True end ->
+  exists r, sel_batch [inline_field f false sh] cells = [r] /\
+            ores_eq r (spec_batch f (sql_mode sh) (map (eval_arg sh) cells)).
+Proof.
+  intros f sh cells NS NW. rewrite sel_batch_fields. unfold inline_field. cbn [map field_batch].
+  eexists; split; [reflexivity|].
+  apply batch_correct; [assumption | | assumption].
+  destruct sh; cbn; discriminate.
+Qed.
 (* what holds of the code as found: the hidden field computes the definition of the aggregate over the bare column,
    in every window of a run (so the suppression by changed_col and the delivered values are still a function of the
    rows of the own window) *)
